@@ -54,9 +54,10 @@ inductive BinOp where
   | add | sub | mul | pow | eq | ne | lt | le | gt | ge | call
   deriving Inhabited, DecidableEq
 
-/-- the `lhs op f` family that goes through `ExprAsFunction`: `->`, `=>`, `>>`, `where`, `orderby` -/
+/-- the `lhs op f` family that goes through `ExprAsFunction`: `->`, `=>`, `>>`, `where`, `orderby`, `:>`,
+and the reducers `sum`, `max`, `min` -/
 inductive ArrOp where
-  | arrow | darrow | seq | where_ | orderby
+  | arrow | darrow | seq | where_ | orderby | tupmap | sum | max | min
   deriving Inhabited, DecidableEq
 
 inductive Coll where
@@ -323,6 +324,21 @@ def keyOf : Val → Res Int
   | .data (.num n) => .ok n
   | _ => .unsup
 
+/-- `sum`'s reducer: "Non-numeric value used in sum" -/
+def numOf : Val → Res Int
+  | .data (.num n) => .ok n
+  | _ => .err
+
+def maxOf : List Int → Int
+  | [] => 0
+  | [a] => a
+  | a :: r => if a < maxOf r then maxOf r else a
+
+def minOf : List Int → Int
+  | [] => 0
+  | [a] => a
+  | a :: r => if minOf r < a then minOf r else a
+
 /-- the collection built from evaluated entries `(name, key, value)`:
 `SetBuilder.Finish`, `NewArray`, `tuple.With` left to right (the last attribute of a name wins),
 `NewDict(false, …)` (a repeated key is an error) -/
@@ -418,6 +434,35 @@ def evalE (call : Caller) : Expr → Env → Res Val
         match sortByKey ks with
         | some sorted => .ok (.data (V.mkArr (sorted.map (·.2))))
         | none => .unsup
+      | .data _ => .err
+      | .clo _ _ _ => .unsup
+    | .tupmap =>       -- TupleMapExpr.Eval: `value.(Tuple).Map(…)` (a non-tuple is a Go panic: outside the model)
+      match v with
+      | .data (.tup as) =>
+        Res.mapM' (fun x => bind p (.data x) >>= fun s => evalE call b (s ++ env) >>= asData) (as.map (·.2)) >>= fun rs =>
+        .ok (.data (V.mkTup ((as.map (·.1)).zip rs)))
+      | _ => .unsup
+    | .sum =>          -- ReduceExpr.Eval with NewSumExpr
+      match v with
+      | .data (.set xs) =>
+        Res.mapM' (fun x => bind p (.data x) >>= fun s => evalE call b (s ++ env) >>= numOf) xs >>= fun ns =>
+        mkNum (ns.foldl (· + ·) 0)
+      | .data _ => .err
+      | .clo _ _ _ => .unsup
+    | .max =>          -- NewMaxExpr over numeric results ("Empty set has no max")
+      match v with
+      | .data (.set xs) =>
+        if xs.isEmpty then .err else
+        Res.mapM' (fun x => bind p (.data x) >>= fun s => evalE call b (s ++ env) >>= keyOf) xs >>= fun ns =>
+        .ok (.data (.num (maxOf ns)))
+      | .data _ => .err
+      | .clo _ _ _ => .unsup
+    | .min =>
+      match v with
+      | .data (.set xs) =>
+        if xs.isEmpty then .err else
+        Res.mapM' (fun x => bind p (.data x) >>= fun s => evalE call b (s ++ env) >>= keyOf) xs >>= fun ns =>
+        .ok (.data (.num (minOf ns)))
       | .data _ => .err
       | .clo _ _ _ => .unsup
   | .cond es, env => evalCond call es env
